@@ -452,17 +452,6 @@ type fnSpec struct {
 	switchOuts  []string
 }
 
-var fnSpecs = []fnSpec{
-	{lean: "encapsulation_dataPrefixForLength", dir: "common/encapsulation", name: "dataPrefixForLength"},
-	{lean: "encapsulation_paddingSwitch", dir: "common/encapsulation", name: "WritePadding", switchParam: "p", switchOuts: []string{"p", "prefix"}},
-	{lean: "namematcher_NewNameMatcher", dir: "common/namematcher", name: "NewNameMatcher"},
-	{lean: "namematcher_IsValidRule", dir: "common/namematcher", name: "IsValidRule"},
-	{lean: "namematcher_IsSupersetOf", dir: "common/namematcher", name: "NameMatcher.IsSupersetOf"},
-	{lean: "namematcher_IsMember", dir: "common/namematcher", name: "NameMatcher.IsMember"},
-	{lean: "util_IsLocal", dir: "common/util", name: "IsLocal"},
-	{lean: "amp_isASCIIWhitespace", dir: "common/amp", name: "isASCIIWhitespace"},
-}
-
 // condSpec translates one `if` condition inside a function, abstracting listed sub-expressions
 // into parameters.  `contains` selects the if statement (its printed condition must contain it).
 type condSpec struct {
@@ -471,15 +460,8 @@ type condSpec struct {
 	abs                       map[string]string
 }
 
-var condSpecs = []condSpec{
-	{lean: "proxy_runSession_rejectCond", dir: "proxy/lib", name: "SnowflakeProxy.runSession", contains: "IsMember",
-		params: []absParam{{"relayURL", tBytes}, {"isMember", tBool}, {"allowNonTLS", tBool}, {"scheme", tBytes}},
-		abs: map[string]string{"relayURL": "relayURL", "matcher.IsMember(parsedRelayURL.Hostname())": "isMember",
-			"sf.AllowNonTLSRelay": "allowNonTLS", "parsedRelayURL.Scheme": "scheme"}},
-}
-
-func emitConds(b *strings.Builder) {
-	for _, cs := range condSpecs {
+func emitConds(b *strings.Builder, specs []condSpec) {
+	for _, cs := range specs {
 		func() {
 			defer func() {
 				if r := recover(); r != nil {
@@ -532,83 +514,73 @@ func findSwitch(n ast.Node) *ast.SwitchStmt {
 	return out
 }
 
-func emitFuncs() string {
-	var b strings.Builder
-	b.WriteString("import Snowflake.Base.GoStr\n/- GENERATED by /verif/extract from the repository working tree. Do not edit. -/\nnamespace Snowflake.Gen.Funcs\n\n")
-	declared := map[string]bool{}
-	for _, fs := range fnSpecs {
-		func() {
-			defer func() {
-				if r := recover(); r != nil {
-					rf, ok := r.(refuse)
-					if !ok {
-						panic(r)
-					}
-					fmt.Fprintf(&b, "/-- translator refused `%s.%s`: %s -/\ntheorem translator_unsupported_%s : False := by trivial\n\n", fs.dir, fs.name, rf.why, fs.lean)
-				}
-			}()
-			p := loadPkg(fs.dir)
-			fd, ok := p.funcs[fs.name]
+func emitFn(b *strings.Builder, fs fnSpec, declared map[string]bool) {
+	defer func() {
+		if r := recover(); r != nil {
+			rf, ok := r.(refuse)
 			if !ok {
-				bad("function not found")
+				panic(r)
 			}
-			t := &tr{p: p, env: map[string]ty{}, structs: map[string]bool{}}
-			var params []string
-			var body string
-			var rty string
-			if fs.switchParam != "" {
-				sw := findSwitch(fd.Body)
-				if sw == nil {
-					bad("no tagless switch")
-				}
-				t.env[fs.switchParam] = tInt
-				t.env["prefix"] = tBytes
-				params = append(params, fmt.Sprintf("(%s : Nat)", v(fs.switchParam)))
-				var outs []string
-				for _, o := range fs.switchOuts {
-					outs = append(outs, v(o))
-				}
-				body = "  let v_prefix : List UInt8 := []\n" + t.stmts([]ast.Stmt{sw}, "  ", func(ind string) string {
-					return ind + "(" + strings.Join(outs, ", ") + ")\n"
-				})
-				rty = "Nat × List UInt8"
-			} else {
-				if fd.Recv != nil {
-					for _, f := range fd.Recv.List {
-						for _, n := range f.Names {
-							ty := t.goType(f.Type)
-							t.env[n.Name] = ty
-							params = append(params, fmt.Sprintf("(%s : %s)", v(n.Name), leanType(ty)))
-						}
-					}
-				}
-				for _, f := range fd.Type.Params.List {
-					for _, n := range f.Names {
-						ty := t.goType(f.Type)
-						t.env[n.Name] = ty
-						params = append(params, fmt.Sprintf("(%s : %s)", v(n.Name), leanType(ty)))
-					}
-				}
-				if fd.Type.Results != nil {
-					for _, f := range fd.Type.Results.List {
-						t.results = append(t.results, t.goType(f.Type))
-					}
-				}
-				rty = t.resultType()
-				body = t.stmts(fd.Body.List, "  ", func(string) string { bad("control falls off the end"); return "" })
-			}
-			var pre strings.Builder
-			for name := range t.structs {
-				if !declared[name] {
-					declared[name] = true
-					pre.WriteString(t.structDecl(name))
-				}
-			}
-			b.WriteString(pre.String())
-			fmt.Fprintf(&b, "/-- translated from `%s` `%s` -/\ndef %s %s : %s :=\n%s\n", fs.dir, fs.name, fs.lean, strings.Join(params, " "), rty, body)
-		}()
+			fmt.Fprintf(b, "/-- translator refused `%s.%s`: %s -/\ntheorem translator_unsupported_%s : False := by trivial\n\n", fs.dir, fs.name, rf.why, fs.lean)
+		}
+	}()
+	p := loadPkg(fs.dir)
+	fd, ok := p.funcs[fs.name]
+	if !ok {
+		bad("function not found")
 	}
-	emitConds(&b)
-	b.WriteString("end Snowflake.Gen.Funcs\n")
-	return b.String()
+	t := &tr{p: p, env: map[string]ty{}, structs: map[string]bool{}}
+	var params []string
+	var body string
+	var rty string
+	if fs.switchParam != "" {
+		sw := findSwitch(fd.Body)
+		if sw == nil {
+			bad("no tagless switch")
+		}
+		t.env[fs.switchParam] = tInt
+		t.env["prefix"] = tBytes
+		params = append(params, fmt.Sprintf("(%s : Nat)", v(fs.switchParam)))
+		var outs []string
+		for _, o := range fs.switchOuts {
+			outs = append(outs, v(o))
+		}
+		body = "  let v_prefix : List UInt8 := []\n" + t.stmts([]ast.Stmt{sw}, "  ", func(ind string) string {
+			return ind + "(" + strings.Join(outs, ", ") + ")\n"
+		})
+		rty = "Nat × List UInt8"
+	} else {
+		if fd.Recv != nil {
+			for _, f := range fd.Recv.List {
+				for _, n := range f.Names {
+					ty := t.goType(f.Type)
+					t.env[n.Name] = ty
+					params = append(params, fmt.Sprintf("(%s : %s)", v(n.Name), leanType(ty)))
+				}
+			}
+		}
+		for _, f := range fd.Type.Params.List {
+			for _, n := range f.Names {
+				ty := t.goType(f.Type)
+				t.env[n.Name] = ty
+				params = append(params, fmt.Sprintf("(%s : %s)", v(n.Name), leanType(ty)))
+			}
+		}
+		if fd.Type.Results != nil {
+			for _, f := range fd.Type.Results.List {
+				t.results = append(t.results, t.goType(f.Type))
+			}
+		}
+		rty = t.resultType()
+		body = t.stmts(fd.Body.List, "  ", func(string) string { bad("control falls off the end"); return "" })
+	}
+	var pre strings.Builder
+	for name := range t.structs {
+		if !declared[name] {
+			declared[name] = true
+			pre.WriteString(t.structDecl(name))
+		}
+	}
+	b.WriteString(pre.String())
+	fmt.Fprintf(b, "/-- translated from `%s` `%s` -/\ndef %s %s : %s :=\n%s\n", fs.dir, fs.name, fs.lean, strings.Join(params, " "), rty, body)
 }
